@@ -12,6 +12,7 @@
 import MiVerif.Model.Commit
 import MiVerif.Lemmas.C07Range
 import MiVerif.Lemmas.C07Gen
+import MiVerif.Lemmas.ArenaGenProofs
 
 namespace C07
 open CommitM
@@ -210,6 +211,41 @@ theorem aAlloc_accessible (a : Arena) (i n : Nat) (commit ok : Bool) (h : AInv a
       cases ok
       · simp at hres
       · simp only [if_true]; exact setR_in _ _ _ _ h1 h2
+
+/-! the arena statements over the functions *generated from src/arena.c* (Gen/ArenaGen.lean, extract/arenatr.py) -/
+open GenR C07A in
+/-- generated `mi_arena_try_alloc_at`: free blocks recorded as committed stay accessible, whatever the claim and the OS answer -/
+theorem generated_arena_alloc_keeps_invariant (σ : ArSt) (n : Int) (commit claimed : Bool) (idx : Int) (ok cz : Bool) (h : AInvG σ) :
+    AInvG (GenR.mi_arena_try_alloc_at σ n commit claimed idx ok cz).1 := gen_alloc_inv σ n commit claimed idx ok cz h
+
+open GenR C07A in
+/-- generated `mi_arena_try_alloc_at`: a range handed out with `initially_committed` is accessible in every block -/
+theorem generated_arena_alloc_accessible (σ : ArSt) (n : Int) (commit : Bool) (idx : Int) (ok cz : Bool) (h : AInvG σ)
+    (hi : 0 ≤ idx) (hn : 0 ≤ n) (hc : σ.hasCommitted = true) (hfree : ∀ k, inRange idx n k = true → σ.inuse k = false)
+    (b : Int) (m : MemId) (hres : (GenR.mi_arena_try_alloc_at σ n commit true idx ok cz).2 = some (b, m)) (hm : m.initially_committed = true) :
+    ∀ k, inRange idx n k = true → (GenR.mi_arena_try_alloc_at σ n commit true idx ok cz).1.os k = true :=
+  gen_alloc_accessible σ n commit idx ok cz h hi hn hc hfree b m hres hm
+
+open GenR C07A in
+/-- generated `mi_arena_try_alloc_at`: a refused commit is recorded — the memid says "not committed" and no block of the range stays
+    recorded as committed (the repair 31fc4dc) -/
+theorem generated_arena_refused_commit_recorded (σ : ArSt) (n : Int) (idx : Int) (cz : Bool) (hc : σ.hasCommitted = true)
+    (hany : bmAnyZero σ.committed idx n = true) (b : Int) (m : MemId)
+    (hres : (GenR.mi_arena_try_alloc_at σ n true true idx false cz).2 = some (b, m)) :
+    m.initially_committed = false ∧ ∀ k, inRange idx n k = true → (GenR.mi_arena_try_alloc_at σ n true true idx false cz).1.committed k = false :=
+  gen_alloc_refused σ n idx cz hc hany b m hres
+
+open GenR C07A in
+/-- generated `mi_arena_purge` and `mi_arena_schedule_purge` keep the invariant (honest OS layer) -/
+theorem generated_arena_purge_keeps_invariant (σ : ArSt) (idx n : Int) (nr1 g1 nr2 g2 : Bool) (hon1 : g1 = true → nr1 = true)
+    (hon2 : g2 = true → nr2 = true) (h : AInvG σ) : AInvG (GenR.mi_arena_purge σ idx n nr1 g1 nr2 g2) :=
+  gen_purge_inv σ idx n nr1 g1 nr2 g2 hon1 hon2 h
+
+open GenR C07A in
+theorem generated_arena_schedule_purge_keeps_invariant (σ : ArSt) (idx n delay : Int) (pre nr1 g1 nr2 g2 : Bool) (now : Int)
+    (hon1 : g1 = true → nr1 = true) (hon2 : g2 = true → nr2 = true) (h : AInvG σ) :
+    AInvG (GenR.mi_arena_schedule_purge σ idx n delay pre nr1 g1 nr2 g2 now) :=
+  gen_schedule_inv σ idx n delay pre nr1 g1 nr2 g2 now hon1 hon2 h
 
 /-- a refused arena commit is recorded: the range is not handed out as committed -/
 theorem aAlloc_refused (a : Arena) (i n : Nat) (hnot : allSet a.committed i n = false) : (aAlloc a i n true false).2 = false := by
